@@ -161,6 +161,8 @@ def run(ctx):
     ctx.check(imp and imp2 and imp[0] == 'func' and imp2[0] == 'func' and imp[1].module is imp2[1].module, 'C14.2', 'same-module', f_enc.loc(), 'label side and matcher side use the two converters of one module')
 
     # ---- C14.3 ------------------------------------------------------------------------------------------
+    from .c04 import check_naming
+    check_naming(ctx, 'C14.3')
     f_cm = repo.func('ConnectionMatcher.matches')
     for p in paths_of(repo, f_cm):
         if p.outcome[0] != 'return':
